@@ -229,16 +229,19 @@ theorem C08_error_position_checked {G : Grammar} {A : Automaton} {C : Cert}
     ¬ Sentence G w :=
   C08_error_position (C08_validator_sound hv) (C08_reduced_check_sound hr) h
 
-/-- **Error position for the generator model**: every conflict-free output of `gen` for a
-grammar that passes the productivity check. -/
+/-- **Error position for the generator model** (after the repair of finding F10: `Grammar.parser()`
+reports nonterminals that derive no terminal string together with the conflicts).  For every
+output of the generator model without a report — no conflict, no unproductive nonterminal — an
+error is raised at the first token no sentence can continue with; the hypothesis `Reduced G` of
+`C08_error_position` is discharged by the generator's own productivity check. -/
 theorem C08_gen_error_position {G : Grammar} {o : Gen.Out} (h : gen G = some o) (hW : WfG G)
-    (hc : o.conflicts = false) (hr : Gen.reducedB G = true)
+    (hc : o.conflicts = false)
     {w : List Token} {fuel : Nat} {code : Option Nat} {i s : Nat} {e : List Nat}
     (he : run o.aut fuel w = .error code i s e) :
     ViablePrefix G (w.take i) ∧
     (i < w.length → ∀ v, ¬ Sentence G (w.take (i + 1) ++ v)) ∧
     ¬ Sentence G w :=
-  C08_error_position (C08_gen_valid h hW hc) (C08_reduced_check_sound hr) he
+  C08_error_position (C08_gen_valid h hW hc) (gen_reduced h hW hc) he
 
 /-! ### non-vacuity and the counterexample (tables regenerated from the real lr1.py) -/
 open Examples
@@ -298,7 +301,11 @@ example : Reduced exG :=
             · exact ParseTree.node _ _ (by decide) (by simp) rfl
             · exact ParseTree.leaf _ (by decide)) rfl, rfl⟩⟩
 
-/-- **Counterexample (finding F10).**  Without productivity `C08_error_position` is false on
+-- test: the grammar of the former finding F10 is now reported by the generator model
+example : (gen f10G).map (·.conflicts) = some true := by decide +kernel
+
+/-- **Counterexample (former finding F10; the generator now reports this grammar, see
+`C08_gen_error_position`).**  Without productivity `C08_error_position` is false on
 the real tables: for `S → a B | a c ; B → b B` the (validated) parser consumes `a b` and reports
 the error at index 2 (end of input), although no sentence starts with `a b`. -/
 theorem C08_error_position_unproductive_counterexample :
